@@ -23,7 +23,7 @@ class _Text(Harness):
     prop = 'C15'
 
     def lens(self, tier):
-        return (0, 1, 2, 3) if tier == 'quick' else (0, 1, 2, 3, 4, 5)
+        return (0, 1, 2, 3, 4, 5, 6) if tier == 'quick' else (0, 1, 2, 3, 4, 5, 6, 7, 8, 9, 10)
 
 
 @register
@@ -32,7 +32,7 @@ class Slicing(_Text):
     doc = 'LEFT / RIGHT / MID / LEN: exactly the requested leading / trailing / inner characters, whole text when more are ' \
           'requested, empty text for zero, #VALUE! for negative counts; LEFT(s,n)&RIGHT(s,LEN(s)-n)=s; MID(s,1,n)=LEFT(s,n)'
     functions = ('text.LEFT', 'text.RIGHT', 'text.MID', 'text.LEN')
-    bounds = 'text of length 0..3 (quick) / 0..5 (thorough) over all code points; counts and start positions: every integer; negative counts also as any real in (-1000, 0)'
+    bounds = 'text of length 0..6 (quick) / 0..10 (thorough) over all code points; counts and start positions: every integer; negative counts also as any real in (-1000, 0)'
 
     def cases(self, tier):
         return [{'L': L} for L in self.lens(tier)] + [{'L': L, 'negfrac': 1} for L in (0, 2)]
@@ -180,7 +180,7 @@ class Cleaners(_Text):
     name = 'C15.trim_clean'
     doc = 'TRIM changes only surplus spaces, CLEAN only control characters; both idempotent'
     functions = ('text.TRIM', 'text.CLEAN')
-    bounds = 'text of length 0..3 (quick) / 0..5 (thorough) over all code points'
+    bounds = 'text of length 0..6 (quick) / 0..10 (thorough) over all code points'
 
     def cases(self, tier):
         return [{'fn': f, 'L': L} for f in ('TRIM', 'CLEAN') for L in self.lens(tier)]
@@ -206,7 +206,7 @@ class Case(_Text):
     doc = 'UPPER / LOWER / PROPER change only letter case and are idempotent; UPPER leaves no lower-case letter, LOWER no ' \
           'upper-case letter, PROPER capitalises exactly the letters that follow a non-letter'
     functions = ('text.UPPER', 'text.LOWER', 'text.PROPER')
-    bounds = 'text of length 0..3 (quick) / 0..5 (thorough) over ASCII (0..127); any integer |n| <= 10^6 in place of the text (also CLEAN)'
+    bounds = 'text of length 0..6 (quick) / 0..10 (thorough) over ASCII (0..127); any integer |n| <= 10^6 in place of the text (also CLEAN)'
     outside = ('non-ASCII alphabets (Unicode case mapping is not modelled)',)
 
     def cases(self, tier):
